@@ -71,7 +71,7 @@ CLAIMED['C19'] = {
             '(constructors and k=1 flips are reasoned table entries); helpers that assert hull freshness are called only '
             'behind the typed staleness check; checked integer arithmetic (overflow / division asserts on non-usize integers, '
             'usize subtraction) per function matches a classified table; slice indices that are caller-handle values are '
-            'range-checked first; range indexing is guarded by a length test on the same collection (or bounded by an iterator position); every non-literal slice / array index is bounded by an order comparison, an iterator position, len / min / clamp / remainder, or sits in a reasoned table; range samplers are reached only behind a finiteness test of the range width. Decides "no unbounded loop / recursion, no new '
+            'range-checked first; range indexing is guarded by a length test on the same collection (or bounded by an iterator position); every non-literal slice / array index is bounded by an order comparison, an iterator position, len / min / clamp / remainder, or sits in a reasoned table; the point generators never size an infallible allocation with the caller-supplied count; range samplers are reached only behind a finiteness test of the range width. Decides "no unbounded loop / recursion, no new '
             'panic site, non-finite input gated"; not complexity, stack depth or arithmetic asserts.',
     'note': 'Trusted: rustc MIR; finiteness of std/slotmap/smallvec iterators; the LOOP / PANIC / FINITE tables in '
             'engine/rules/c19.py (each entry with a reason). Idiom classifiers: an unrecognised but correct new loop or '
